@@ -311,6 +311,9 @@ def rescale(img, scale, shape=None, mask=None, order=3, mode='nearest',
     """
 
     img = np.asarray(img)
+    if not np.issubdtype(img.dtype, np.inexact):
+        # integer (e.g. binary mask) input: interpolate and post-mask in float
+        img = img.astype(float)
 
     if mask is None:
         # take the real portion to ensure that even if img is complex, mask will
